@@ -1,2 +1,122 @@
-/- placeholder driver for C20: replaced when the check for C20 is built -/
-def main : IO Unit := IO.println "not-built"
+import CashewsVerif.Driver.RedisProto
+import CashewsVerif.Model.ClientSide
+/-
+Driver for C20 (interactive, one flushed answer line per request line).
+
+  reset <n>                     n clients; new stub server (nobody tracking yet), new model (everybody started)
+  enc <hex>…                    payloads the serializer decodes
+  srv <i> <tok>…                wire command of client i on the stub server → reply; modifications are announced to the tracking clients
+  srvadv <ms>                   time passes on the stub server (expiries are announced)
+  track <i> / untrack <i>       client i's invalidation connection subscribes / is gone (pending announcements are lost)
+  pop <i>                       next announcement for client i:  K<hexkey>,…  |  F  |  none
+  qlen                          pending announcements per client (stub)
+  sget <hexkey>                 what the stub server holds under that key:  v=<value>|-  present=T|F
+  op <command>                  one step of the client-side model → model=<out> q=<pending announcements per client>
+  dump                          stub keyspace / model keyspace
+-/
+open CashewsVerif CashewsVerif.Redis CashewsVerif.Redis.Proto CashewsVerif.Redis.CS
+
+structure DSt where
+  n : Nat
+  stub : St
+  model : St
+  encs : List String
+
+def mkSt (encs : List String) (started : Bool) : St :=
+  { srv := Srv.init,
+    cl := fun _ => { Client.init with started := started, tracking := started },
+    isEnc := fun h => encs.contains h }
+
+def DSt.init : DSt := { n := 2, stub := mkSt [] false, model := mkSt [] true, encs := [] }
+
+def client? (n : Nat) (s : String) : Option Nat := s.toNat?.bind fun i => if i < n then some i else none
+
+def parseCOp? (n : Nat) : List String → Option CS.Op
+  | ["get", c, k] => do pure (.get (← client? n c) (← key? k))
+  | "getmany" :: c :: ks => do pure (.getMany (← client? n c) (← keys? ks))
+  | ["exists", c, k] => do pure (.exists_ (← client? n c) (← key? k))
+  | ["set", c, k, v, ttl, cond] => do
+    pure (.set (← client? n c) (← key? k) (← parseCVal? v) (← parseTtl? ttl) (← parseCond? cond))
+  | "setmany" :: c :: ttl :: kvs => do pure (.setMany (← client? n c) (← allSome (kvs.map parseKv?)) (← parseTtl? ttl))
+  | ["incr", c, k, b, ttl] => do pure (.incr (← client? n c) (← key? k) (← b.toInt?) (← parseTtl? ttl))
+  | ["delete", c, k] => do pure (.delete (← client? n c) (← key? k))
+  | "delmany" :: c :: ks => do pure (.deleteMany (← client? n c) (← keys? ks))
+  | ["delmatch", c, p] => do pure (.deleteMatch (← client? n c) (← key? p))
+  | ["expire", c, k, ms] => do pure (.expire (← client? n c) (← key? k) (← ms.toNat?))
+  | ["clear", c] => do pure (.clear (← client? n c))
+  | ["setlock", c, k, tok, ms] => do pure (.setLock (← client? n c) (← key? k) (← parseBytes? tok) (← ms.toNat?))
+  | ["unlock", c, k, tok] => do pure (.unlock (← client? n c) (← key? k) (← parseBytes? tok))
+  | ["deliver", c] => do pure (.deliver (← client? n c))
+  | ["drop", c] => do pure (.drop (← client? n c))
+  | ["reconnect", c] => do pure (.reconnect (← client? n c))
+  | ["adv", dt] => do pure (.adv (← dt.toNat?))
+  | _ => none
+
+def showMsg : Msg → String
+  | .flush => "F"
+  | .keys ks => "K" ++ ",".intercalate (ks.map toHex)
+
+def qlens (n : Nat) (st : St) : String := ",".intercalate ((List.range n).map fun i => toString (st.cl i).queue.length)
+
+def step (st : DSt) (line : String) : DSt × String :=
+  match words line with
+  | ["reset", n] =>
+    match n.toNat? with
+    | some k => ({ n := k, stub := mkSt st.encs false, model := mkSt st.encs true, encs := st.encs }, "ok")
+    | none => (st, "bad-op")
+  | "enc" :: hs =>
+    let encs := hs ++ st.encs
+    ({ st with encs := encs, stub := { st.stub with isEnc := fun h => encs.contains h },
+               model := { st.model with isEnc := fun h => encs.contains h } }, "ok")
+  | "srv" :: i :: toks =>
+    match client? st.n i, parseWire? toks with
+    | some _, some c =>
+      let (s', r) := srvCmd st.stub c
+      ({ st with stub := s' }, showReply r)
+    | _, _ => (st, "bad-op")
+  | ["srvadv", ms] =>
+    match ms.toNat? with
+    | some d => ({ st with stub := advance st.stub d }, "ok")
+    | none => (st, "bad-op")
+  | ["track", i] =>
+    match client? st.n i with
+    | some c => ({ st with stub := { st.stub with cl := upd st.stub.cl c { st.stub.cl c with tracking := true, queue := [] } } }, "ok")
+    | none => (st, "bad-op")
+  | ["untrack", i] =>
+    match client? st.n i with
+    | some c => ({ st with stub := { st.stub with cl := upd st.stub.cl c { st.stub.cl c with tracking := false, queue := [] } } }, "ok")
+    | none => (st, "bad-op")
+  | ["pop", i] =>
+    match client? st.n i with
+    | some c =>
+      match (st.stub.cl c).queue with
+      | [] => (st, "none")
+      | m :: rest => ({ st with stub := { st.stub with cl := upd st.stub.cl c { st.stub.cl c with queue := rest } } }, showMsg m)
+    | none => (st, "bad-op")
+  | ["qlen"] => (st, "q=" ++ qlens st.n st.stub)
+  | ["sget", k] =>
+    match key? k with
+    | some key =>
+      (st, s!"v={showOptCVal (srvValue st.stub key)} present={if st.stub.srv.ks.present key then "T" else "F"}")
+    | none => (st, "bad-op")
+  | "op" :: ws =>
+    match parseCOp? st.n ws with
+    | none => (st, "bad-op")
+    | some op =>
+      let (m', o) := CS.step st.model op
+      ({ st with model := m' }, s!"model={showOut o} q={qlens st.n m'}")
+  | ["dump"] => (st, s!"stub={dumpKS st.stub.srv.ks} model={dumpKS st.model.srv.ks}")
+  | _ => (st, "bad-op")
+
+partial def loop (h : IO.FS.Stream) (out : IO.FS.Stream) (st : DSt) : IO Unit := do
+  let line ← h.getLine
+  if line.isEmpty then
+    out.flush
+    return ()
+  let (st', o) := step st line
+  out.putStrLn o
+  out.flush
+  loop h out st'
+
+def main : IO Unit := do
+  loop (← IO.getStdin) (← IO.getStdout) DSt.init
